@@ -590,9 +590,9 @@ func (c *Corpus) addKeyID(mm *mutationMap) error {
 }
 
 func (c *Corpus) addBlob(ctx context.Context, br blob.Ref, mm *mutationMap) error {
-	if _, dup := c.blobs[br]; dup {
-		return nil
-	}
+	// A blob can legitimately be added twice: a delete claim indexed before
+	// its target is first committed partially and re-indexed later.
+	_, dup := c.blobs[br]
 	c.gen++
 	// make sure keySignerKeyID is done first before the actual mutations, even
 	// though it's also going to be done in the loop below.
@@ -606,6 +606,10 @@ func (c *Corpus) addBlob(ctx context.Context, br blob.Ref, mm *mutationMap) erro
 			continue
 		}
 		if !slurpedKeyType[kt] {
+			continue
+		}
+		if dup && kt == "meta" {
+			// already merged by the first (partial) commit
 			continue
 		}
 		if err := corpusMergeFunc[kt](c, []byte(k), []byte(v)); err != nil {
